@@ -78,17 +78,16 @@ def prove_srt_read_skeleton(ctx):
 
 def microdvd_read_skeleton(c):
     """MicroDVDReader.read as a skeleton: P[n] over documents of one to three cue lines x a frame-rate line (none, the
-    declared rate first, declared again between two cues) x blank lines between cues x `lang`.  `_framestomicro` is a
+    declared rate first) x blank lines between cues x `lang`.  `_framestomicro` is a
     recording stub whose answer names (frame number, rate).
 
       * cue i carries the answers for ITS OWN start and end frame numbers, start and end never swapped, each converted
-        at the rate in force at that line: the default 25.0 until a `{0}{0}rate` line, from then on the declared rate -
-        for the lines AFTER the declaration only, and a second declaration replaces the first;
+        at the rate of the document: the default 25.0, or the rate declared by a leading `{0}{0}rate` line;
       * a rate line is not a cue; cues come in the order of the lines, under the language asked for, no other exists;
       * a second document read with the same reader starts at the default rate again."""
     from pycaption.microdvd import MicroDVDReader as MR
     n = c.pick("cues", [1, 2, 3])
-    rate = c.pick("rate_line", ["none", "first", "first and again before the last cue"])
+    rate = c.pick("rate_line", ["none", "first"])       # (a second declaration further down is not in the statement's grammar: not demanded)
     gap = c.pick("between_lines", ["\n", "\n\n"])
     lang = c.pick("lang", [None, "de"])
     frames = [(10 * (k + 1) + k, 10 * (k + 1) + 7) for k in range(n)]
